@@ -246,7 +246,7 @@ func runC09(ctx *report.Ctx) {
 		for ch := 0; ch < nChildren; ch++ {
 			// a fresh child process recomputes the baseline digest of every case of this shard
 			cmd := exec.Command(self, "C09", ctx.EffectiveTier(), "--worker", fmt.Sprintf("%d/%d", ctx.ShardIndex, ctx.ShardCount))
-			cmd.Env = append(os.Environ(), "VERIF_C09_CHILD=1")
+			cmd.Env = append(os.Environ(), "VERIF_C09_CHILD=1", "VERIF_NO_QUICK_PASS=1") // a child recomputes exactly the pass of its parent
 			var out bytes.Buffer
 			cmd.Stdout = &out
 			stop := make(chan struct{})
